@@ -20,6 +20,7 @@ EXPLANATION = ("The recursive layers (translate, compile_, execute_) are out of 
                "the stack effect table, program-counter safety, the 18 arithmetic/comparison interpreter arms against Z / IEEE, and the "
                "operator-name -> opcode table.")
 ASSUMPTIONS = [
+    "interpreter arms are verified as wrapped functions (R-arm): the arm's statements are the repository's, the dispatch `match instr` and the surrounding loop are not under contract; `alloc(..)` is assumed to build a data value whose fields are the given slice in order",
     "binop_*'s mapping of None to Error::Message(\"Arithmetic overflow\") needs a live Thread and is not under contract",
     "MultiplyInt: reference is i64::checked_mul of core (64x64 multiplier equivalence against a 128-bit product is intractable for SAT); MultiplyByte is checked against the 16-bit product",
     "DivideInt: reference is the language's truncating `/` on i64 where defined (a 128-bit divider is intractable for SAT); DivideByte is checked against the 32-bit quotient",
@@ -160,6 +161,16 @@ def obligations(tier):
         generate(tier)
     obs = list(generate.cache)
     obs += [v("stack", f, c) for f, c in STACK]
+    T = "vm/src/thread.rs::execute_ arm "
+    obs += [
+        v("stack", "arm::Pop", "run-time effect of Pop(n) == its static effect -n: exactly the top n values go", T + "Pop"),
+        v("stack", "arm::Slide", "run-time effect of Slide(n) == -n: the top value survives, exactly the n below it go", T + "Slide"),
+        v("stack", "arm::PushInt", "pushes exactly the literal (+1)", T + "PushInt"),
+        v("stack", "arm::PushByte", "pushes exactly the literal (+1)", T + "PushByte"),
+        v("stack", "arm::PushFloat", "pushes one value (+1), nothing else moves", T + "PushFloat"),
+        v("stack", "arm::ConstructVariant", "effect 1 - args; the new value has exactly the top `args` values as fields, in stack (= source) order; values below untouched", T + "ConstructVariant"),
+        v("stack", "StackFrame::index_from", "frame[start..] is the frame view from start", "vm/src/stack.rs::<StackFrame as Index<RangeFrom<VmIndex>>>::index"),
+    ]
     obs += [
         v("compiler", "Instruction::adjust", "adjust(i) == documented stack effect of i (operands <= i32::MAX)", "vm/src/types.rs::Instruction::adjust"),
         v("compiler", "ProgramCounter::new", "establishes index < len and last == Return", "vm/src/thread.rs::ProgramCounter::new"),
